@@ -164,7 +164,7 @@ def r06_3(ctx):
         if not b or not (f.file or "").endswith("subscriber.rs"):
             continue
         for loc, s in b.iter_stmts():
-            if not (s["k"] == "assign" and s["rv"]["k"] == "agg" and (s["rv"].get("adt") or "").endswith("vector::VectorDiff") and s["rv"]["variant"] == "Reset"):
+            if not (s["k"] == "assign" and s["rv"]["k"] == "agg" and (s["rv"].get("adt") or "").endswith("::VectorDiff") and s["rv"]["variant"] == "Reset"):
                 continue
             n += 1
             # the site itself, or - for a closure body - the place where the closure is created
